@@ -11,13 +11,10 @@ package pilosa
 // and (non-coordinator) mergeClusterStatus.
 
 import (
-	"encoding/binary"
 	"fmt"
-	"hash/fnv"
 	"io/ioutil"
 	"os"
 	"sort"
-	"strconv"
 	"strings"
 	"testing"
 
@@ -36,48 +33,6 @@ var vC20Alphabet = []string{
 
 var vC20Indexes = []string{"i", "foo", "an-index_2"}
 
-// vC20Jump is the published jump consistent hash (Lamping & Veach, fig. 1).
-func vC20Jump(key uint64, n int) int {
-	var b, j int64 = -1, 0
-	for j < int64(n) {
-		b = j
-		key = key*2862933555777941757 + 1
-		j = int64(float64(b+1) * (float64(int64(1)<<31) / float64((key>>33)+1)))
-	}
-	return int(b)
-}
-
-func vC20Partition(index string, shard uint64) int {
-	var buf [8]byte
-	binary.BigEndian.PutUint64(buf[:], shard)
-	h := fnv.New64a()
-	h.Write([]byte(index))
-	h.Write(buf[:])
-	return int(h.Sum64() % 256)
-}
-
-func vC20ReplicaN(r, n int) int {
-	if r < 1 {
-		r = 1
-	}
-	if r > n {
-		r = n
-	}
-	return r
-}
-
-// vC20ModelOwners returns the model owner ids of a partition.
-func vC20ModelOwners(sorted []string, r, partition int) []string {
-	n := len(sorted)
-	k := vC20ReplicaN(r, n)
-	p := vC20Jump(uint64(partition), n)
-	out := make([]string, k)
-	for i := 0; i < k; i++ {
-		out[i] = sorted[(p+i)%n]
-	}
-	return out
-}
-
 type vC20T interface {
 	Fatalf(format string, args ...interface{})
 }
@@ -95,7 +50,7 @@ func vC20CoveringPairs() []vC20Pair {
 	for _, idx := range vC20Indexes {
 		seen := map[int]bool{}
 		for s := uint64(0); len(seen) < 256; s++ {
-			p := vC20Partition(idx, s)
+			p := vGXPartition(idx, s)
 			if !seen[p] || s < 8 {
 				seen[p] = true
 				out = append(out, vC20Pair{idx, s, p})
@@ -214,19 +169,10 @@ func vC20NextPerm(p []int) bool {
 	return true
 }
 
-func vC20Shard() (int, int) {
-	s, _ := strconv.Atoi(os.Getenv("VERIF_SHARD"))
-	n, _ := strconv.Atoi(os.Getenv("VERIF_NSHARDS"))
-	if n < 1 {
-		n = 1
-	}
-	return s, n
-}
-
 // vC20CheckPartitions compares partitionNodes of c for all 256 partitions with the model.
 func vC20CheckPartitions(t vC20T, c *cluster, sorted []string, r int, how string) {
 	c.ReplicaN = r
-	want := vC20ReplicaN(r, len(sorted))
+	want := vGXReplicaN(r, len(sorted))
 	for p := 0; p < 256; p++ {
 		got := vC20IDs(c.partitionNodes(p))
 		if len(got) != want {
@@ -242,7 +188,7 @@ func vC20CheckPartitions(t vC20T, c *cluster, sorted []string, r int, how string
 				t.Fatalf("%s: ids=%v replicas=%d partition=%d: owner %q is not a member", how, sorted, r, p, got[i])
 			}
 		}
-		if m := vC20ModelOwners(sorted, r, p); !vC20Eq(got, m) {
+		if m := vGXPartitionOwners(sorted, r, p); !vC20Eq(got, m) {
 			t.Fatalf("%s: ids=%v replicas=%d partition=%d: owners %v, every node must compute %v (self=%s)", how, sorted, r, p, got, m, c.Node.ID)
 		}
 	}
@@ -262,7 +208,7 @@ func vC20CheckHelpers(t vC20T, c *cluster, sorted []string, r int, pairs []vC20P
 		if got := c.partition(pr.index, pr.shard); got != pr.part {
 			t.Fatalf("%s: partition(%q,%d)=%d, want %d", how, pr.index, pr.shard, got, pr.part)
 		}
-		m := vC20ModelOwners(sorted, r, pr.part)
+		m := vGXPartitionOwners(sorted, r, pr.part)
 		if ownersOf[pr.index] == nil {
 			ownersOf[pr.index] = map[uint64][]string{}
 		}
@@ -393,7 +339,7 @@ func TestVerifC20_Enum(t *testing.T) {
 	defer vkit.Flush()
 	maxN := vkit.Scale(5, 8)
 	maxR := vkit.Scale(6, 9)
-	shard, nshards := vC20Shard()
+	shard, nshards := vGXShardEnv()
 	pairs := vC20CoveringPairs()
 	dir, err := ioutil.TempDir("", "verif-c20-")
 	if err != nil {
